@@ -73,32 +73,49 @@ theorem generate_item_eq_line (r : PState) (nameT ttlT clsT tyT rdT rest : List 
     nameT ttlT clsT tyT (32 :: (rdT ++ [10])) rest co zo n m ttl ty rd comment hco hzo rfl hl hm hline]
   rfl
 
-/-- the loop: when every index yields a record, the `$GENERATE` loop is the sequence of those records -/
+/-- an index whose owner is outside the zone yields no record (`continue`) -/
+theorem genItem_out_of_zone (r : PState) (nameT rdT : List Nat) (co zo n : Name) (ttl ty : Nat)
+    (hco : r.currentOrigin = some co) (hzo : r.zoneOrigin = some zo)
+    (hname : fromText nameT (some co) = .ok n) (hout : isSubdomain n zo = false) :
+    genItem ttl ty (nameT, rdT) r = .ok (none, { r with lastName := some n }) := by
+  unfold genItem
+  simp [hco, hname, hzo, hout, pure, Except.pure]
+
+/-- the loop: what it does to the zone is the fold of `txn.add` over the records of the indices that yield one — the
+indices whose owner is outside the zone (`e item = none`) are skipped, the others are added in index order -/
 theorem genTrace_records (ttl ty : Nat) (items : List (List Nat × List Nat)) (r : PState)
-    (e : List Nat × List Nat → Entry) (nOf : List Nat × List Nat → Name) (k : Bool → PState → Trace)
+    (e : List Nat × List Nat → Option Entry) (nOf : List Nat × List Nat → Name) (k : PState → Trace)
     (h : ∀ item ∈ items, ∀ ln, genItem ttl ty item { r with lastName := ln } =
-      .ok (some (e item), { r with lastName := some (nOf item) }))
+      .ok (e item, { r with lastName := some (nOf item) }))
     (z : ZoneMap) :
     ∃ ln, interpTrace (genTrace ttl ty items r k) z =
-      (addAll r.effOrigin z (items.map e)).bind fun z' => interpTrace (k false { r with lastName := ln }) z' := by
+      (addAll r.effOrigin z (items.filterMap e)).bind fun z' => interpTrace (k { r with lastName := ln }) z' := by
   induction items generalizing r z with
   | nil => exact ⟨r.lastName, by simp [genTrace, addAll, Except.bind]⟩
   | cons item rest ih =>
     have h0 := h item (by simp) r.lastName
     have hr : ({ r with lastName := r.lastName } : PState) = r := rfl
     rw [hr] at h0
-    simp only [genTrace, h0, interpTrace, List.map_cons, addAll]
     have heff : ({ r with lastName := some (nOf item) } : PState).effOrigin = r.effOrigin := rfl
-    rw [heff]
-    cases ha : addEntry z r.effOrigin (e item) with
-    | error err => exact ⟨none, by simp [Except.bind]⟩
-    | ok z1 =>
-      simp only
-      have h' : ∀ it ∈ rest, ∀ ln, genItem ttl ty it { ({ r with lastName := some (nOf item) } : PState) with lastName := ln } =
-          .ok (some (e it), { ({ r with lastName := some (nOf item) } : PState) with lastName := some (nOf it) }) := by
-        intro it hit ln
-        exact h it (by simp [hit]) ln
-      obtain ⟨ln, hln⟩ := ih { r with lastName := some (nOf item) } h' z1
+    have h' : ∀ it ∈ rest, ∀ ln, genItem ttl ty it { ({ r with lastName := some (nOf item) } : PState) with lastName := ln } =
+        .ok (e it, { ({ r with lastName := some (nOf item) } : PState) with lastName := some (nOf it) }) := by
+      intro it hit ln
+      exact h it (by simp [hit]) ln
+    cases he : e item with
+    | none =>
+      rw [he] at h0
+      simp only [genTrace, h0, List.filterMap_cons, he]
+      obtain ⟨ln, hln⟩ := ih { r with lastName := some (nOf item) } h' z
       exact ⟨ln, by rw [hln]; rfl⟩
+    | some en =>
+      rw [he] at h0
+      simp only [genTrace, h0, interpTrace, List.filterMap_cons, he, addAll]
+      rw [heff]
+      cases ha : addEntry z r.effOrigin en with
+      | error err => exact ⟨none, by simp [Except.bind]⟩
+      | ok z1 =>
+        simp only
+        obtain ⟨ln, hln⟩ := ih { r with lastName := some (nOf item) } h' z1
+        exact ⟨ln, by rw [hln]; rfl⟩
 
 end Model
